@@ -90,7 +90,7 @@ def sec_seg(nums, colon, thru=False):
     if colon:
         g['colon'] = (':', len(text), len(text) + 1)
         text += ':'
-    return Seg('SEC', text, g, {'secs': ['%02d' % s for s in secs], 'multi': len(nums) > 1, 'colon': bool(colon)})
+    return Seg('SEC', text, g, {'secs': [str(s).rjust(2, '0') for s in secs], 'multi': len(nums) > 1, 'colon': bool(colon)})
 
 
 BETWEEN = (' of ', ' in ', ', ', ',', ' all of ', ' lying within ')
